@@ -175,3 +175,38 @@ func (j *jb) panicEvent(orig string, data []byte) {
 	j.bytes(data)
 	j.raw(`}`)
 }
+
+// relayout returns a copy of data in one of nine layouts of a caller's slice (times eight start offsets within the
+// backing array), chosen by the bytes themselves (so that
+// a replay of the same input recreates the same layout): capacity as the allocator rounds it, capacity == length
+// (the input ends where its backing array ends), and spare capacity holding bytes that would continue or close the
+// token or container the input ends in - a digit, a quote, a closing bracket of either kind, the last letter of a
+// literal, UTF-8 continuation bytes.  What lies beyond len(data) is not input: no result may depend on the layout,
+// and no specification clause mentions it.
+var relayoutTails = [][]byte{
+	[]byte(`5"]}]}"]}  `), []byte(`"]}]}"]}5  `), []byte(`]}]"}]}5"  `), []byte(`}]}"]}]5"  `), []byte(`e"]}]}"]}5 `), []byte(`l"]}]}"]}5 `),
+	{0x80, 0xbf, 0x80, '"', ']', '}', ' ', ' ', ' ', ' ', ' '},
+}
+
+func relayout(data []byte) []byte {
+	h := uint32(2166136261)
+	for _, b := range data {
+		h = (h ^ uint32(b)) * 16777619
+	}
+	n := len(data)
+	off := int(h>>20) % 8 // where in its backing array the input starts (word-at-a-time code is alignment sensitive)
+	switch k := int(h>>8) % 9; k {
+	case 0:
+		return append([]byte(nil), data...)
+	case 1:
+		out := make([]byte, off+n)
+		copy(out[off:], data)
+		return out[off : off+n : off+n]
+	default:
+		t := relayoutTails[k-2]
+		out := make([]byte, off+n+len(t))
+		copy(out[off:], data)
+		copy(out[off+n:], t)
+		return out[off : off+n]
+	}
+}
